@@ -190,7 +190,10 @@ func cmdCheck(args []string) int {
 	}
 	eng.crossCheck = tier == 1
 
-	deadline := time.Time{}
+	deadline := t0.Add(15 * time.Minute)
+	if tier == 1 {
+		deadline = t0.Add(90 * time.Minute)
+	}
 	if s := os.Getenv("VERIF_DEADLINE_S"); s != "" {
 		if n, err := strconv.Atoi(s); err == nil {
 			deadline = t0.Add(time.Duration(n) * time.Second)
@@ -698,4 +701,67 @@ func cleanGoEnv(env []string) []string {
 		out = append(out, e)
 	}
 	return out
+}
+
+// cmdReplay runs one recorded vector natively: gosym replay <file>.
+func cmdReplay(args []string) int {
+	if len(args) < 1 {
+		fmt.Fprintln(os.Stderr, "usage: gosym replay <replay.json>")
+		return 2
+	}
+	data, err := os.ReadFile(args[0])
+	if err != nil {
+		fmt.Fprintln(os.Stderr, err)
+		return 2
+	}
+	var rf struct {
+		Harness string `json:"harness"`
+		Pkg     string `json:"pkg"`
+		Kind    string `json:"kind"`
+		Msg     string `json:"msg"`
+	}
+	if err := json.Unmarshal(data, &rf); err != nil || rf.Pkg == "" {
+		fmt.Fprintln(os.Stderr, "bad replay file")
+		return 2
+	}
+	work := filepath.Join(verifDir, ".work", "replay")
+	os.RemoveAll(work)
+	defer os.RemoveAll(work)
+	ovJSON := map[string]string{}
+	if err := buildOverlay(rf.Pkg, filepath.Join(work, "overlay"), "/repo", ovJSON); err != nil {
+		fmt.Fprintln(os.Stderr, err)
+		return 2
+	}
+	ovFile := filepath.Join(work, "overlay.json")
+	b, _ := json.Marshal(map[string]any{"Replace": ovJSON})
+	os.WriteFile(ovFile, b, 0o644)
+	abs, _ := filepath.Abs(args[0])
+	rs, err := runNative("/repo", work, ovFile, rf.Pkg, []string{abs})
+	if err != nil {
+		fmt.Fprintln(os.Stderr, err)
+		return 2
+	}
+	for _, r := range rs {
+		out, _ := json.MarshalIndent(r, "", " ")
+		fmt.Println(string(out))
+		reproduced := false
+		switch rf.Kind {
+		case "assert":
+			for _, f := range r.Failed {
+				if f == rf.Msg {
+					reproduced = true
+				}
+			}
+		case "panic":
+			reproduced = r.Panic != ""
+		case "hang":
+			reproduced = r.Hang || strings.Contains(r.Panic, "deadlock")
+		}
+		if reproduced {
+			fmt.Println("REPRODUCED:", rf.Msg)
+			return 1
+		}
+	}
+	fmt.Println("not reproduced on this tree")
+	return 0
 }
